@@ -3,9 +3,16 @@
     the L-RUNTIME correspondence of the check), with the marker constants regenerated from runtime.go.
     "inert" text contains no '~' and no byte 0xE2: text in which no marker look-alike can form (the complement is
     exactly known finding F04).
+    The five theorems named *document* / *placement* / *removed* below are about WHOLE documents with the two sentinels in any number and any placement (Proofs/NukeDocProofs.v):
+    a document is a list of pieces (text run | after-sentinel | before-sentinel), [spec] trims a text run on the left iff an
+    after-sentinel stands immediately in front of it and on the right iff a before-sentinel stands immediately behind it and
+    drops the sentinels; Buffer.Bytes() computes exactly [spec].  The test [doc_ok] (text runs maximal and inert) is extracted
+    and evaluated by the check on random documents, whose [raw] bytes go through the real Buffer.Bytes (L-DOC).
     OBLIGATIONS: C14_inner_marker_eats_following_whitespace C14_marker_eats_preceding_whitespace
-      C14_text_is_left_alone C14_text_before_anything_is_left_alone C14_no_marker_in_output_text C14_nonvacuous *)
-From GV Require Import Base.Regex Proofs.NukeProofs.
+      C14_text_is_left_alone C14_text_before_anything_is_left_alone C14_no_marker_in_output_text C14_nonvacuous
+      C14_whole_document C14_no_marker_survives_any_placement C14_only_whitespace_is_removed C14_document_test_is_sound
+      C14_document_nonvacuous *)
+From GV Require Import Base.Regex Proofs.NukeProofs Proofs.NukeDocProofs.
 
 (** `<` (and the trailing side of `>`): the marker and all white space immediately after it are removed *)
 Theorem C14_inner_marker_eats_following_whitespace : forall t, nuke (c_NukeAfter ++ t) = nuke (drop_ws t).
@@ -32,6 +39,39 @@ Theorem C14_no_marker_in_output_text : forall s,
   inert s -> contains c_NukeAfter s = false /\ contains c_NukeBefore s = false.
 Proof. exact inert_marker_free. Qed.
 Print Assumptions C14_no_marker_in_output_text.
+
+(** every placement: what Buffer.Bytes() returns for a document of text runs and sentinels is [spec] of it *)
+Theorem C14_whole_document : forall d, normal d -> texts_inert d -> nuke (raw d) = spec false d.
+Proof. exact nuke_document. Qed.
+Print Assumptions C14_whole_document.
+
+(** ... it holds no sentinel, wherever and however many were planted *)
+Theorem C14_no_marker_survives_any_placement : forall d, normal d -> texts_inert d ->
+  contains c_NukeAfter (nuke (raw d)) = false /\ contains c_NukeBefore (nuke (raw d)) = false.
+Proof. exact nuke_document_marker_free. Qed.
+Print Assumptions C14_no_marker_survives_any_placement.
+
+(** ... and it is the document's text minus white space only: every non-blank byte is kept, in order *)
+Theorem C14_only_whitespace_is_removed : forall d, normal d -> texts_inert d ->
+  non_ws (nuke (raw d)) = non_ws (texts d).
+Proof. intros d Hn Hi. rewrite (nuke_document d Hn Hi). apply spec_keeps_all_text. Qed.
+Print Assumptions C14_only_whitespace_is_removed.
+
+(** the executable test of the hypotheses is sound, so all three hold for every document that passes it *)
+Theorem C14_document_test_is_sound : forall d, doc_ok d = true ->
+  nuke (raw d) = spec false d /\ 
+  contains c_NukeAfter (nuke (raw d)) = false /\ contains c_NukeBefore (nuke (raw d)) = false /\ 
+  non_ws (nuke (raw d)) = non_ws (texts d).
+Proof. exact nuke_document_checked. Qed.
+Print Assumptions C14_document_test_is_sound.
+
+(** non-vacuity: two adjacent marked siblings (`%a<` then `%b>`), a nested block and trailing text *)
+Example C14_document_nonvacuous :
+  let d := [PText (lit "<a>"); PAfter; PText ([10; 32] ++ lit "x y " ++ [10]); PBefore; PText (lit "</a>" ++ [10]);
+            PBefore; PText (lit "<b>z</b>"); PAfter; PText ([10] ++ lit "<i> t </i>" ++ [10])] in
+  (doc_ok d = true) /\ (spec false d = lit "<a>x y</a><b>z</b><i> t </i>" ++ [10]) /\ (nuke (raw d) = spec false d).
+Proof. vm_compute. repeat split; reflexivity. Qed.
+Print Assumptions C14_document_nonvacuous.
 
 Example C14_nonvacuous :
   nuke (lit "<a>" ++ c_NukeAfter ++ [10; 32] ++ lit "x " ++ [10] ++ c_NukeBefore ++ lit "</a>") = lit "<a>x</a>" /\
